@@ -288,6 +288,29 @@ func (ex *Explorer) next() (workItem, bool) {
 	}
 }
 
+// stopNow reports whether the exploration has been stopped or one of its limits (deadline, grace
+// period after the last new violation) has been reached; workers consult it before solver queries so
+// that a path with many slow queries does not keep the run alive.
+func (ex *Explorer) stopNow() bool {
+	ex.mu.Lock()
+	defer ex.mu.Unlock()
+	if ex.stop {
+		return true
+	}
+	if !ex.opt.Deadline.IsZero() && time.Now().After(ex.opt.Deadline) {
+		ex.report.TimedOut = true
+		ex.stop = true
+	} else if ex.opt.GraceAfterNew > 0 && !ex.lastNewFP.IsZero() && time.Since(ex.lastNewFP) > ex.opt.GraceAfterNew {
+		ex.report.TimedOut = true
+		ex.report.StoppedAfterViolation = true
+		ex.stop = true
+	}
+	if ex.stop {
+		ex.cond.Broadcast()
+	}
+	return ex.stop
+}
+
 func (ex *Explorer) donePath() {
 	ex.mu.Lock()
 	ex.active--
@@ -421,6 +444,9 @@ func (w *Worker) decideTerm(c *Term, tag string) bool {
 		return false
 	}
 	// beyond the prefix: ask the solver (a cached model of the path condition answers one side for free)
+	if w.ex.stopNow() {
+		w.endPath("abort", "exploration stopped")
+	}
 	nc := w.tt.Not(c)
 	vars := w.nondetVars()
 	var rt, rf Result
